@@ -1289,6 +1289,20 @@ def m_try_from_int(run, bb, st, t, args, ret, site):
     return ret(("tag", "std::result::Result", None, {"0": TOP}))
 
 
+def m_from_int(run, bb, st, t, args, ret, site):
+    """<wide as From<narrow>>::from / Into::into between integer types: lossless by construction (core::convert::num
+    only implements the widening pairs), so the result IS the argument — `i64::from(b)` is `b as i64`"""
+    dty = (t.get("dest_ty") or "").strip()
+    aty = ((t.get("arg_tys") or [""])[0] or "").strip()
+    a = args[0] if args else TOP
+    if dty in INT_RANGES and aty in INT_RANGES and a[0] == "int":
+        return ret(a)
+    cn = strip_generics(t.get("callee")) or ""
+    for x in args:
+        run._run_closure_arg(st, x, site)
+    return ret(run._total_result(st, t, cn, args, site))
+
+
 def m_slice_iter(run, bb, st, t, args, ret, site):
     a = run.ip._deref(st, args[0]) if args and args[0][0] == "ref" else (args[0] if args else TOP)
     if a[0] == "slice":
@@ -1369,6 +1383,8 @@ MODELS = {
     "core::panicking::panic_display": m_panic,
     "std::convert::TryInto::try_into": m_try_from_int,
     "std::convert::TryFrom::try_from": m_try_from_int,
+    "std::convert::From::from": m_from_int,
+    "std::convert::Into::into": m_from_int,
 }
 MODELS = {k: v for k, v in MODELS.items() if v is not None}
 PATTERN_MODELS = [
